@@ -32,7 +32,7 @@ var cfgC02 = reg(PropCfg{
 	NonTrivial: func(w *World) bool {
 		return w.Classes["c02.block-with-completion"] > 0 && w.Classes["c02.nonent-ok-in-block-without-completion"] > 0
 	},
-	MinClasses: map[string]int{"c02.block-with-completion": 5},
+	MinClasses: map[string]int{"c02.block-with-completion": 5, "c02.burn": 3},
 	Assume:     []string{"IBC voucher minting needs a counterparty chain and is not generated", "events of failed transactions are not part of the response; their state is rolled back"},
 })
 
